@@ -89,7 +89,7 @@ func (r *renderer) wsparen() { r.w(r.pick("wsparen", "", " ", " \t")) }
 func (r *renderer) nl(indent string, blank bool) {
 	// trailing part of the line being ended
 	if r.comments {
-		r.w(r.pick("trail", "", " # trailing comment, with [brackets] and : colon", "   ", "\t"))
+		r.w(r.pick("trail", "", " # trailing comment, see #42 # with [brackets] and : colon", "   ", "\t"))
 	} else {
 		r.w(r.pick("trail", "", "  ", "\t", " "))
 	}
@@ -97,7 +97,7 @@ func (r *renderer) nl(indent string, blank bool) {
 	r.w(eol)
 	var gaps []string
 	if r.comments {
-		gaps = []string{"", "\n", "   \n", "# full-line comment: define x: [y]\n", "    # indented comment\n", "\n#\n\n"}
+		gaps = []string{"", "\n", "   \n", "# full-line comment: define x: [y] # nested\n", "    # indented comment\n", "\n#\n\n"}
 	} else {
 		gaps = []string{"", "\n", "   \n", "\n\n", " \n", "\n   \n"}
 	}
